@@ -583,6 +583,12 @@ def gen_op(rng, wd: World, swarm, step, script):
                 fs_now = float(getattr(wd.setups[si], "fs", w["fs"]))
                 op["Wn"] = round(0.4 * fs_now / 2 * rng.uniform(0.6, 1.0), 5)
                 op["order"] = rng.randint(2, 6)
+            if mem and rng.random() < 0.5:
+                # the usual continuation: hand the new data to algorithms that were already added, then run one
+                again = sorted(rng.sample(mem, rng.randint(1, len(mem))))
+                script.append(lambda r, wd2, si=si, again=again: {"op": "add", "setup": si, "algs": again})
+                nm = w["algs"][rng.choice(again)]["name"]
+                script.append(lambda r, wd2, si=si, nm=nm: {"op": "run", "setup": si, "name": nm})
             return op
         if k == "save":
             return _with_disk_fault(rng, swarm, {"op": "save", "setup": si, "path": f"sim:/s{si}_{rng.choice('ab')}.pkl"})
